@@ -20,7 +20,7 @@ theorem build_mts_in_event_in_dispatcher (fc : FC) (cfg : Config) (b : BuildResu
     (hevu : ∀ e ∈ p.dzn.itf.events, e.name = ev.name → evDirOf e = .in_ → e = ev)
     (hfn : (ev.formals.map (·.name)).Nodup) (hu : C01.UniqueEvents b.allPorts)
     (pump runtime : Bool) (name : Str) (extra : Bool) (n : Nat)
-    (hf : facilitiesCheck b.ir.origin b.ir.structName pump runtime = none)
+    (hf : ctorCheck b.ir pump runtime = none)
     (args : List Val) (hlen : ev.formals.length = args.length) :
     ∃ w, construct b.ir b.allPorts b.grantIndex pump runtime none name extra = .ok w ∧
       let r := invoke (n + 3) w ⟨.bnd p.target, .in_, ev.name⟩ args
@@ -45,7 +45,7 @@ theorem build_mts_requires_out_queued (fc : FC) (cfg : Config) (b : BuildResult)
     (hfn : (ev.formals.map (·.name)).Nodup) (hallin : ∀ f ∈ ev.formals, f.dir = .in_)
     (hu : C01.UniqueEvents b.allPorts)
     (pump runtime : Bool) (name : Str) (extra : Bool) (n : Nat)
-    (hf : facilitiesCheck b.ir.origin b.ir.structName pump runtime = none)
+    (hf : ctorCheck b.ir pump runtime = none)
     (args : List Val) (hlen : ev.formals.length = args.length) :
     ∃ w, construct b.ir b.allPorts b.grantIndex pump runtime none name extra = .ok w ∧
       let r := invoke (n + 1) w ⟨.bnd p.target, .out, ev.name⟩ args
@@ -88,7 +88,7 @@ theorem build_sts_port_bypasses_dispatcher (fc : FC) (cfg : Config) (b : BuildRe
     (hn : ∀ q ∈ mtsPorts b.ir.provides ++ mtsPorts b.ir.requires, q.name ≠ port.name)
     (hu : C01.UniqueEvents b.allPorts)
     (pump runtime : Bool) (name : Str) (extra : Bool) (n : Nat)
-    (hf : facilitiesCheck b.ir.origin b.ir.structName pump runtime = none) (args : List Val) :
+    (hf : ctorCheck b.ir pump runtime = none) (args : List Val) :
     ∃ w, construct b.ir b.allPorts b.grantIndex pump runtime none name extra = .ok w ∧
       invoke (n + 1) w (C01.compSlot port ev) args =
         ((scriptedRun w .comp port.name ev args).1,
